@@ -192,12 +192,16 @@ class _FuncInline(SiteRewriter):
         self.env = self.env.merge(ast.env, keys=map(str, ast.free_vars))
         self.free_vars |= ast.free_vars
 
-        # bind arguments to parameters
+        # bind arguments to parameters; the argument of a `_` parameter is
+        # still evaluated, so it is bound to a name nobody reads
         for arg, param in zip(e.args, ast.args):
             arg = self._visit_expr(arg, ctx)
             if isinstance(param.name, NamedId):
                 name = subst.get(param.name, param.name)
-                ctx.stmts.append(Assign(name, param.type, arg, e.loc))
+            else:
+                name = self.gensym.fresh('t')
+            bind: Stmt = Assign(name, param.type, arg, e.loc)
+            ctx.stmts.append(bind)
 
         # bind the return value to a fresh variable and splice into the current block
         t = self.gensym.fresh('t')
